@@ -275,6 +275,9 @@ class P:
             return self.ifexpr()
         if k == "id" and v == "match":
             return self.matchexpr()
+        if self.at("||"):
+            self.i += 1
+            return ("closure", [], self.expr())
         if self.at("|"):
             self.i += 1
             params = []
@@ -883,8 +886,16 @@ class ExecP(Exec):
             return k(("info", INFO_CTOR[e[1][1]]), env)
         if t == "path" and e[1] == ["FrameTrust", "Context"]:
             return k(("trust",), env)
+        if t == "path" and e[1] == ["UnifiedMemory", "Memory"]:
+            return k(("ctorfn",), env)
         if t == "closure":
             return k(("closure", e[1], e[2], env), env)
+        if t == "try":
+            def tr(v, env2):
+                if v[0] == "optmem":
+                    return ("matchopt", v[1], "m", k(("mem", "m"), env2), ("leaf", ("none",)))
+                self.die("`?` on %r" % (v,))
+            return self.ev(e[1], env, tr)
         if t == "not":
             return self.ev(e[1], env, lambda v, env2: k(("b", "negb (%s)" % self.b(v)), env2))
         if t == "bin" and e[1] == "==":
@@ -930,6 +941,8 @@ class ExecP(Exec):
             (("sysinfo",), "cpu"): ("cpuarg",),
             (("thread",), "raw"): ("thraw",), (("thraw",), "thread_id"): ("z", "t_id t"),
             (("stack",), "frames"): ("framesof",),
+            (("selft",), "stack"): ("optmem", "t_stack t"), (("selft",), "raw"): ("thraw",), (("thraw",), "stack"): ("thstack",),
+            (("thstack",), "start_of_memory_range"): ("sp", "t_sbase t"),
         }
         if (v, name) in table:
             return table[(v, name)]
@@ -947,6 +960,8 @@ class ExecP(Exec):
         def done(a, env2):
             if segs == ["Some"] and len(a) == 1 and a[0][0] == "z":
                 return k(("optz", "Some (%s)" % a[0][1]), env2)
+            if segs == ["Some"] and len(a) == 1 and a[0][0] == "mem":
+                return k(("optmem", "Some %s" % a[0][1]), env2)
             if segs == ["Some"] and len(a) == 1 and a[0][0] == "nat":
                 return k(("optnat", "Some %s" % a[0][1]), env2)
             if segs == ["CallStack", "with_info"] and len(a) == 2 and a[0][0] == "z" and a[1][0] == "info":
@@ -990,6 +1005,12 @@ class ExecP(Exec):
                     return K(("optz", "misc_create_time %s" % v[1]))
                 if name == "map" and v == ("optstatus",) and len(a) == 1 and a[0][0] == "closure":
                     return self.apply(a[0], [("status", "s")], lambda r, e4: k(("optz", "option_map (fun s => %s) (d_status d)" % self.z(r)), e4), env3)
+                if name == "map" and v[0] == "optmem" and e[3] == [("path", ["UnifiedMemory", "Memory"])]:
+                    return K(v)                                   # wrapping in the UnifiedMemory enum
+                if name == "or_else" and v[0] == "optmem" and len(a) == 1 and a[0][0] == "closure" and not a[0][1]:
+                    tree = self.ev(a[0][2], dict(a[0][3]), lambda r, _e: ("leaf", r))
+                    txt = " ".join(show_p(tree, leaf_optmem, 0).split())
+                    return K(("optmem", "or_else_optz (%s) (fun _ => %s)" % (v[1], txt)))
                 if name == "stack_memory" and v == ("thread",) and a == [("memlist",)]:
                     return K(("optmem", "thread_stack mems t"))
                 if name == "first" and v == ("framesof",) and not a:
@@ -1073,6 +1094,14 @@ class ExecP(Exec):
                 return ("matchopt", scrut, var, tb(), eb())
             return self.ev(ex, env, got)
         return Exec.ifx(self, e, env, k)
+
+
+def leaf_optmem(v):
+    if v[0] == "none":
+        return "None"
+    if v[0] != "optmem":
+        die("stack memory: result %r" % (v,))
+    return v[1]
 
 
 def show_p(t, leaf, ind):
@@ -1183,6 +1212,37 @@ def leaf_mem(v):
     return v[1]
 
 
+# (e) MinidumpThread::stack_memory, MinidumpMemoryBase::get_memory_at_address
+sig_sm, body_sm = function_body(src, "impl<'a> MinidumpThread<'a> {", "stack_memory<'mem>")
+tree_ts = ExecP("stack_memory").block(body_sm[1], 0, {"self": ("selft",), "memory_list": ("memlist",)}, lambda v, env: ("leaf", v))
+if "pubfnget_memory_at_address<T>(&self,addr:u64)->Option<T>whereT:TryFromCtx<'a,scroll::Endian,[u8],Error=scroll::Error>,{letstart=addr.checked_sub(self.base_address)?asusize;self.bytes.pread_with::<T>(start,self.endian).ok()}" not in nows:
+    die("MinidumpMemoryBase::get_memory_at_address: expected checked_sub(base_address)? then pread_with::<T>(start)")
+
+# (d) thread names (last readable entry of an id wins: BTreeMap::insert in stream order) and the Linux status stream
+for need in ("letmutnames=BTreeMap::new();forraw_nameinraw_names{letmutoffset=raw_name.thread_name_rvaasusize;"
+             "ifletSome(name)=read_string_utf16(&mutoffset,all,endian){names.insert(raw_name.thread_id,name);}else{",
+             "pubfnget_name(&self,thread_id:u32)->Option<Cow<str>>{self.names.get(&thread_id).map(|name|Cow::Borrowed(&**name))}"):
+    if need not in nows:
+        die("MinidumpThreadNames: expected `%s`" % need)
+m = re.search(r"impl<'a>MinidumpLinuxProcStatus<'a>\{pubfniter\(&self\)->implIterator<Item=\(&'aLinuxOsStr,&'aLinuxOsStr\)>\{linux_list_iter\(self\.data,b'(.)'\)\}", nows)
+if not m:
+    die("MinidumpLinuxProcStatus::iter: linux_list_iter(self.data, b'<sep>') not found")
+status_sep = ord(m.group(1))
+for need in ("letinput=input.trim_ascii_whitespace();letoutput=input.strip_prefix(b\"\\\"\").and_then(|input|input.strip_suffix(b\"\\\"\")).unwrap_or(input);",
+             "input.lines().filter_map(move|line|{line.split_once(separator).map(|(label,val)|(strip_quotes(label),(strip_quotes(val))))})"):
+    if need not in nows:
+        die("linux_list_iter: expected `%s`" % need)
+ps_src = re.sub(r"\s+", "", re.sub(r"//[^\n]*", "", open(os.path.join(repo, "minidump-processor/src/process_state.rs")).read()))
+m = re.search(r"letpid=status\.iter\(\)\.find\(\|entry\|entry\.0\.as_bytes\(\)==b\"(\w+)\"\)\.map_or\((\d+),\|key_val\|\{key_val\.1\.to_string_lossy\(\)\.parse::<u32>\(\)\.unwrap_or\((\d+)\)\}\);LinuxProcStatus\{pid\}", ps_src)
+if not m:
+    die("LinuxProcStatus::from: the Pid lookup is not recognised")
+status_key, status_absent, status_bad = m.group(1), int(m.group(2)), int(m.group(3))
+sm = re.sub(r"\s+", "", re.sub(r"//[^\n]*", "", open(os.path.join(repo, "minidump/src/strings.rs")).read()))
+for need in ("pubfnlines(&self)->implIterator<Item=&LinuxOsStr>{self.split(b'\\n')}",
+             "pubfnsplit_once(&self,separator:u8)->Option<(&LinuxOsStr,&LinuxOsStr)>{self.iter().position(|&b|b==separator).map(|idx|{(Self::from_bytes(&self[..idx]),Self::from_bytes(&self[idx+1..]),)})}"):
+    if need not in sm:
+        die("strings.rs: expected `%s`" % need)
+
 pout = "\n".join([
     "(* GENERATED by translate/c14_reason.py from minidump-processor/src/processor.rs (MinidumpInfo::into_process_state) - do not edit *)",
     "From Coq Require Import ZArith List Bool.", "From RM Require Import C14.Model.", "Import ListNotations.", "Open Scope Z_scope.", "",
@@ -1193,7 +1253,13 @@ pout = "\n".join([
     "Definition gen_process_create_time (d : dump) : option Z :=", show_p(tree_ct, leaf_optz, 1) + ".", "",
     "(* the memory handed to walk_stack; frame0 = stack.frames.first() *)",
     "Definition gen_choose_stack (mems : list (Z * Z)) (t : thread) (frame0 : option (ctxsrc * ctx)) : option Z :=",
-    show_p(tree_sm, leaf_mem, 1) + ".", ""])
+    show_p(tree_sm, leaf_mem, 1) + ".", "",
+    "(* %s *)" % sig_sm,
+    "Definition gen_thread_stack (mems : list (Z * Z)) (t : thread) : option Z :=", show_p(tree_ts, leaf_optmem, 1) + ".", "",
+    "(* /proc/self/status: separator of linux_list_iter, the key LinuxProcStatus::from looks for (first match), the values for `absent` / `unparseable` *)",
+    "Definition GEN_STATUS_SEP : Z := %d." % status_sep,
+    "Definition GEN_STATUS_KEY : list Z := [%s]." % "; ".join(str(ord(ch)) for ch in status_key),
+    "Definition GEN_STATUS_ABSENT : Z := %d." % status_absent, "Definition GEN_STATUS_UNPARSEABLE : Z := %d." % status_bad, ""])
 ppath = os.path.join(outdir, "C14Process.v")
 try:
     same = open(ppath).read() == pout
@@ -1202,6 +1268,27 @@ except OSError:
 if not same:
     os.makedirs(outdir, exist_ok=True)
     open(ppath, "w").write(pout)
+
+# ------------------------------------------------------------------------------------------------ Display for CrashReason
+# the literal text in front of `{ex:?}` for every variant rendered as "<literal><Debug name of its payload>"
+k0 = src.find("impl fmt::Display for CrashReason {")
+k1 = src.find("\nimpl", k0 + 10)
+if k0 < 0:
+    die("impl fmt::Display for CrashReason not found")
+disp = src[k0:k1]
+display = re.findall(r"\b(\w+)\(ex\) => write!\(f, \"([^\"{}]*)\{ex:\?\}\"\),", disp)
+SIMPLE = ["MacBadAccessKern", "MacBadAccessArm", "MacBadAccessPpc", "MacBadAccessX86", "MacBadInstructionArm", "MacBadInstructionPpc",
+          "MacBadInstructionX86", "MacArithmeticArm", "MacArithmeticPpc", "MacArithmeticX86", "MacSoftware", "MacBreakpointArm",
+          "MacBreakpointPpc", "MacBreakpointX86", "LinuxSigill", "LinuxSigtrap", "LinuxSigbus", "LinuxSigfpe", "LinuxSigsegv", "LinuxSigsys",
+          "WindowsGeneral", "WindowsAccessViolation"]
+if [d[0] for d in display] != SIMPLE:
+    die("Display for CrashReason: the `Variant(ex) => write!(f, \"..{ex:?}\")` arms are %s" % [d[0] for d in display])
+for lit in ('WindowsUnknown(code) => write!(f, "unknown {code:#010x}"),', 'Unknown(code, flags) => write!(f, "unknown {code:#010x} / {flags:#010x}"),',
+            'MacGeneral(ex, flags) => write!(f, "{ex:?} / {flags:#010x}"),', 'write!(f, "EXCEPTION_STACK_BUFFER_OVERRUN / ")?;',
+            'MacGeneral(err::ExceptionCodeMac::SIMULATED, _) => write!(f, "Simulated Exception"),',
+            'WindowsGeneral(err::ExceptionCodeWindows::OUT_OF_MEMORY) => write!(f, "Out of Memory"),'):
+    if lit not in disp:
+        die("Display for CrashReason: expected `%s`" % lit)
 
 # ------------------------------------------------------------------------------------------------ output
 out = ["(* GENERATED by translate/c14_reason.py from minidump/src/minidump.rs and minidump-common/src/errors/*.rs - do not edit *)",
@@ -1231,6 +1318,10 @@ for en, var in (("ExceptionCodeWindows", "EXCEPTION_ACCESS_VIOLATION"), ("Except
     out.append("Definition GEN_%s : Z := %d." % (var, enum_const(en, var)))
 out.append("")
 out += defs
+out.append("(* Display for CrashReason: the literal in front of the Debug name of the payload *)")
+out.append("Definition GEN_DISPLAY : list (family * list Z) :=\n  [%s]." % ";\n   ".join(
+    "(%s, [%s]) (* %s *)" % (v, "; ".join(str(ord(ch)) for ch in lit), lit) for v, lit in display))
+out.append("")
 out.append("(* ---- platform tables (minidump/src/system_info.rs, minidump-common/src/format.rs, minidump/src/context.rs) *)")
 out += platform_defs
 out.append("(* MinidumpContext::read has an arm for these raw architectures *)")
